@@ -132,20 +132,23 @@ Definition tolower (c : N) : N := if (65 <=? c) && (c <=? 90) then c + 32 else c
 Definition strcaseeq (a b : bytes) : bool := beq (map tolower a) (map tolower b).
 
 
+(* List.rev, linear *)
+Definition frev (b : bytes) : bytes := rev_append b [].
+
 (* wbxml_buffer_contains_only_whitespaces *)
 Definition only_ws (b : bytes) : bool := forallb isspace b.
 
 (* wbxml_buffer_strip_blanks *)
 Fixpoint drop_ws (b : bytes) : bytes :=
   match b with c :: r => if isspace c then drop_ws r else b | [] => [] end.
-Definition strip_blanks (b : bytes) : bytes := rev (drop_ws (rev (drop_ws b))).
+Definition strip_blanks (b : bytes) : bytes := frev (drop_ws (frev (drop_ws b))).
 
 (* wbxml_buffer_split_words *)
 Fixpoint split_words_aux (b : bytes) (cur : bytes) : list bytes :=
   match b with
-  | [] => match cur with [] => [] | _ => [rev cur] end
+  | [] => match cur with [] => [] | _ => [frev cur] end
   | c :: r => if isspace c
-              then match cur with [] => split_words_aux r [] | _ => rev cur :: split_words_aux r [] end
+              then match cur with [] => split_words_aux r [] | _ => frev cur :: split_words_aux r [] end
               else split_words_aux r (c :: cur)
   end.
 Definition split_words (b : bytes) : list bytes := split_words_aux b [].
@@ -153,7 +156,7 @@ Definition split_words (b : bytes) : list bytes := split_words_aux b [].
 (* wbxml_buffer_remove_trailing_zeros *)
 Fixpoint drop_zeros (b : bytes) : bytes :=
   match b with c :: r => if c =? 0 then drop_zeros r else b | [] => [] end.
-Definition remove_trailing_zeros (b : bytes) : bytes := rev (drop_zeros (rev b)).
+Definition remove_trailing_zeros (b : bytes) : bytes := frev (drop_zeros (frev b)).
 
 (* ------------------------------------------------------------------ *)
 (* table searches (wbxml_tables.c)                                       *)
@@ -737,9 +740,12 @@ Definition enc_value (e : env) (st : est) (is_attr : bool) (cur_attr : option (N
       | Some (EErr c) => EErr c
       | Some (EOk b) => EOk (b, st)
       | None =>
+        (* only the content of a MetInf <Type> (page 1, token 0x13) is rewritten (/repo 6dbd56f), the DM tree type for
+           SyncML 1.2 only (/repo 56fa004) *)
+        let in_type := match parent with Some (TagTok 1 19 _ _) => true | _ => false end in
         let the_buffer :=
-            if content && is_syncml (e_lang e) then
-              if strcaseeq buffer (* "application/vnd.syncml.dmtnds+xml" *) [97; 112; 112; 108; 105; 99; 97; 116; 105; 111; 110; 47; 118; 110; 100; 46; 115; 121; 110; 99; 109; 108; 46; 100; 109; 116; 110; 100; 115; 43; 120; 109; 108]
+            if content && is_syncml (e_lang e) && in_type then
+              if (lid =? LANG_SYNCML12) && strcaseeq buffer (* "application/vnd.syncml.dmtnds+xml" *) [97; 112; 112; 108; 105; 99; 97; 116; 105; 111; 110; 47; 118; 110; 100; 46; 115; 121; 110; 99; 109; 108; 46; 100; 109; 116; 110; 100; 115; 43; 120; 109; 108]
               then (* "application/vnd.syncml.dmtnds+wbxml" *) [97; 112; 112; 108; 105; 99; 97; 116; 105; 111; 110; 47; 118; 110; 100; 46; 115; 121; 110; 99; 109; 108; 46; 100; 109; 116; 110; 100; 115; 43; 119; 98; 120; 109; 108]
               else if strcaseeq buffer (* "application/vnd.syncml-devinf+xml" *) [97; 112; 112; 108; 105; 99; 97; 116; 105; 111; 110; 47; 118; 110; 100; 46; 115; 121; 110; 99; 109; 108; 45; 100; 101; 118; 105; 110; 102; 43; 120; 109; 108]
               then (* "application/vnd.syncml-devinf+wbxml" *) [97; 112; 112; 108; 105; 99; 97; 116; 105; 111; 110; 47; 118; 110; 100; 46; 115; 121; 110; 99; 109; 108; 45; 100; 101; 118; 105; 110; 102; 43; 119; 98; 120; 109; 108]
@@ -817,12 +823,20 @@ Definition enc_element_start (e : env) (st : est) (tag : tagname) (attrs : list 
 (* ------------------------------------------------------------------ *)
 (* text                                                                 *)
 
-Definition is_binary_tag (st : est) : bool :=
-  match cur_tag st with Some (_, _, o) => negb (N.land o 1 =? 0) | None => false end.
+(* text_is_binary (/repo 093ad9f): current_tag, which is only set while the FIRST child of an element is encoded, else
+   the tag of the text's parent element when that is a token *)
+Definition is_binary_tag (st : est) (parent : option tagname) : bool :=
+  match cur_tag st with
+  | Some (_, _, o) => negb (N.land o 1 =? 0)
+  | None => match parent with
+            | Some (TagTok _ _ o _) => negb (N.land o 1 =? 0)
+            | _ => false
+            end
+  end.
 
 (* parse_text for a text node with parent tag `parent` (the node is trimmed in place; nothing else reads it) *)
 Definition enc_text (e : env) (st : est) (parent : option tagname) (content : bytes) : eres (bytes * est) :=
-  if is_binary_tag st then EOk (enc_opaque content, st)
+  if is_binary_tag st parent then EOk (enc_opaque content, st)
   else
     if negb (in_cdata st) && e_ignore_empty e && only_ws content then EOk ([], st)
     else
